@@ -233,6 +233,74 @@ Proof.
     apply (inv_acc_outside (mk (st_arena st) (st_segs st) (st_live st) (st_raw st) acc1) addr nslices false HI1); auto.
 Qed.
 
+(* ---------------------------------------------------------------- releasing a segment *)
+Lemma arena_free_split c a acc b0 n allc o :
+  arena_free c a acc b0 n allc o =
+  arena_free c (if allc then a else with_committed a (set_range (a_committed a) b0 n false)) acc b0 n true o.
+Proof. unfold arena_free. destruct allc; reflexivity. Qed.
+
+Lemma inv_release c st s unmap_ok o a' acc' o' :
+  commit_Inv st -> In s (st_segs st) -> seg_has_live (sg_base s) (st_live st) = false ->
+  segment_release c (st_arena st) (st_acc st) s unmap_ok o = (a', acc', o') ->
+  commit_Inv (mk a' (remove_seg (sg_base s) (st_segs st)) (st_live st) (st_raw st) acc').
+Proof.
+  intros HI Hs Hnl. unfold segment_release. pose proof (seg_wf_in st HI s Hs) as Hw.
+  pose proof (I_S st HI) as HS. rewrite Forall_forall in HS. destruct (HS s Hs) as [_ S2].
+  assert (Hothers : forall x, In x (remove_seg (sg_base s) (st_segs st)) -> In x (st_segs st) /\ sg_base x <> sg_base s)
+    by (intros x Hx; apply in_remove_seg in Hx; exact Hx).
+  destruct (sg_mem s) as [b0 nb|] eqn:Em.
+  - rewrite arena_free_split.
+    set (amid := if mask_is_full (sg_commit s) then st_arena st else with_committed (st_arena st) (set_range (a_committed (st_arena st)) b0 nb false)).
+    unfold seg_wf in Hw. rewrite Em in Hw. destruct Hw as [_ [_ [Hns [Hbase [Hr [Hcov Hiu]]]]]].
+    assert (Hshape : same_arena_shape (st_arena st) amid) by (subst amid; destruct (mask_is_full (sg_commit s)); unfold same_arena_shape; cbn; auto).
+    assert (Hinuse : a_inuse amid = a_inuse (st_arena st)) by (subst amid; destruct (mask_is_full (sg_commit s)); reflexivity).
+    assert (Hdec : forall b, a_committed amid b = true -> a_committed (st_arena st) b = true).
+    { subst amid. destruct (mask_is_full (sg_commit s)); [auto|]. cbn. intros b Hb.
+      destruct (set_range_cases (a_committed (st_arena st)) b0 nb false b) as [[_ E]|[_ E]]; rewrite E in Hb; [discriminate|exact Hb]. }
+    assert (HImid : commit_Inv (mk amid (remove_seg (sg_base s) (st_segs st)) (st_live st) (st_raw st) (st_acc st))).
+    { apply inv_remove_segment; auto. intros Hh b x Hb Hc Hin Hx. subst amid. destruct (mask_is_full (sg_commit s)) eqn:Efull.
+      - rewrite mask_is_full_spec in Efull. replace x with (sg_base s + (x - sg_base s)) by lia.
+        apply S2; [exact Hh|lia|]. apply Efull. rewrite <- (Hns Hh). lia.
+      - exfalso. cbn in Hc. rewrite set_range_in in Hc; [discriminate|].
+        assert (Hx' : block_slice (st_arena st) b0 <= x < block_slice (st_arena st) b0 + nb * BLOCK_SLICES) by (rewrite <- Hbase; lia).
+        destruct (slice_in_blocks _ _ _ _ Hx') as [b' [Hb' Hin']]. rewrite (block_of_slice_unique _ _ _ _ Hin Hin'). exact Hb'. }
+    intros H. eapply (inv_arena_free_unowned _ HImid); [|exact H].
+    intros ow How. rewrite owners_eq in How. cbn [st_arena st_segs st_raw mk] in How |- *.
+    replace (block_slice amid b0) with (sg_base s) by (rewrite Hbase; unfold block_slice; destruct Hshape as [-> _]; reflexivity).
+    change (sg_base s, nb * BLOCK_SLICES) with (sg_base s, match MemArena b0 nb with MemArena _ nb' => nb' * BLOCK_SLICES | MemOs => sg_nslices s end).
+    rewrite <- Em. fold (seg_span s). fold (seg_owner s).
+    apply in_app_or in How. destruct How as [How|How]; apply in_map_iff in How; destruct How as [y [<- Hy]].
+    + destruct (Hothers y Hy) as [Hy1 Hy2]. unfold owner_disjoint, seg_owner. cbn [fst snd]. apply range_disjoint_spec.
+      apply (segs_disjoint st HI s y Hs Hy1). congruence.
+    + unfold owner_disjoint, seg_owner, raw_owner. cbn [fst snd]. apply range_disjoint_spec.
+      replace (block_slice amid (fst y)) with (block_slice (st_arena st) (fst y)) by (unfold block_slice; destruct Hshape as [-> _]; reflexivity).
+      apply (seg_raw_disjoint st HI s y Hs Hy).
+  - intros H. inversion H; subst; clear H. unfold seg_wf in Hw. rewrite Em in Hw. destruct Hw as [_ [_ [_ Hout]]].
+    assert (HImid : commit_Inv (mk (st_arena st) (remove_seg (sg_base s) (st_segs st)) (st_live st) (st_raw st) (st_acc st))).
+    { apply inv_remove_segment; auto; [unfold same_arena_shape; auto|].
+      intros _ b x Hb _ Hin Hx. exfalso. apply range_disjoint_spec in Hout. pose proof (in_block_in_arena _ _ _ Hb Hin) as Ha. unfold in_arena in Ha. lia. }
+    destruct unmap_ok; [|exact HImid].
+    apply (inv_acc_outside _ (sg_base s) (sg_nslices s) false HImid); cbn [st_arena st_segs mk]; [exact Hout|].
+    intros y Hy. destruct (Hothers y Hy) as [Hy1 Hy2]. apply range_disjoint_spec.
+    pose proof (segs_disjoint st HI s y Hs Hy1 ltac:(congruence)) as Hd.
+    destruct (seg_span_ge _ _ (seg_wf_in st HI s Hs)), (seg_span_ge _ _ (seg_wf_in st HI y Hy1)).
+    unfold seg_span in Hd at 1. rewrite Em in Hd. lia.
+Qed.
+
+(* the tail of the repaired mi_segments_page_alloc: if (segment->used == 0) mi_segment_free(segment) *)
+Lemma free_if_unused_inv c st base u o st' o' :
+  commit_Inv st -> free_if_unused c st base u o = (st', o') -> commit_Inv st' /\ st_live st' = st_live st.
+Proof.
+  intros HI. unfold free_if_unused. destruct (seg_has_live base (st_live st)) eqn:El.
+  - intros H. inversion H; subst. auto.
+  - destruct (find_seg base (st_segs st)) as [s|] eqn:Ef.
+    + apply find_seg_some in Ef. destruct Ef as [Hs Hb].
+      destruct (segment_release c (st_arena st) (st_acc st) s u o) as [[a1 acc1] o1] eqn:Er.
+      intros H. inversion H; subst; clear H. split; [|reflexivity].
+      apply (inv_release c st s u o a1 acc1 o' HI Hs El Er).
+    + intros H. inversion H; subst. auto.
+Qed.
+
 (* ---------------------------------------------------------------- mi_segments_page_alloc, mi_segment_huge_page_alloc, mi_find_page *)
 Definition alloc_post (st st' : state) (r : option page) : Prop :=
   commit_Inv st' /\
@@ -254,12 +322,18 @@ Proof.
       * destruct (pfa_inv _ _ _ _ _ _ _ _ _ _ _ HI Ep) as [HI1 Hl]. destruct (IH _ _ _ _ _ HI1 H) as [HI2 Hl2].
         split; [exact HI2|]. rewrite <- Hl. exact Hl2.
     + destruct (segment_alloc_arena c st b0 MI_SLICES_PER_SEGMENT false commit o) as [[[st1 [s1|]] o1]|] eqn:Es; [| |discriminate].
-      * destruct (segment_alloc_arena_inv _ _ _ _ _ _ _ _ _ _ HI Hsl Hmb Es) as [HI1 [Hl _]]. destruct (IH _ _ _ _ _ HI1 H) as [HI2 Hl2].
-        split; [exact HI2|]. rewrite <- Hl. exact Hl2.
+      * destruct (segment_alloc_arena_inv _ _ _ _ _ _ _ _ _ _ HI Hsl Hmb Es) as [HI1 [Hl _]].
+        destruct (segments_page_alloc c st1 n commit rest o1) as [[[st2 r2] o2]|] eqn:Er; [|discriminate].
+        destruct (free_if_unused c st2 (sg_base s1) true o2) as [st3 o3] eqn:Ef. inversion H; subst; clear H.
+        destruct (IH _ _ _ _ _ HI1 Er) as [HI2 Hl2]. destruct (free_if_unused_inv _ _ _ _ _ _ _ HI2 Ef) as [HI3 Hl3].
+        split; [exact HI3|]. rewrite Hl3, <- Hl. exact Hl2.
       * inversion H; subst. destruct (segment_alloc_arena_inv _ _ _ _ _ _ _ _ _ _ HI Hsl Hmb Es) as [HI1 [Hl _]]. split; assumption.
     + destruct (segment_alloc_os st addr MI_SLICES_PER_SEGMENT false commit unmap_ok o) as [[[st1 [s1|]] o1]|] eqn:Es; [| |discriminate].
-      * destruct (segment_alloc_os_inv _ _ _ _ _ _ _ _ _ _ HI Hsl Hmb Es) as [HI1 [Hl _]]. destruct (IH _ _ _ _ _ HI1 H) as [HI2 Hl2].
-        split; [exact HI2|]. rewrite <- Hl. exact Hl2.
+      * destruct (segment_alloc_os_inv _ _ _ _ _ _ _ _ _ _ HI Hsl Hmb Es) as [HI1 [Hl _]].
+        destruct (segments_page_alloc c st1 n commit rest o1) as [[[st2 r2] o2]|] eqn:Er; [|discriminate].
+        destruct (free_if_unused c st2 (sg_base s1) unmap_ok o2) as [st3 o3] eqn:Ef. inversion H; subst; clear H.
+        destruct (IH _ _ _ _ _ HI1 Er) as [HI2 Hl2]. destruct (free_if_unused_inv _ _ _ _ _ _ _ HI2 Ef) as [HI3 Hl3].
+        split; [exact HI3|]. rewrite Hl3, <- Hl. exact Hl2.
       * inversion H; subst. destruct (segment_alloc_os_inv _ _ _ _ _ _ _ _ _ _ HI Hsl Hmb Es) as [HI1 [Hl _]]. split; assumption.
     + inversion H; subst. split; [exact HI|reflexivity].
 Qed.
@@ -361,60 +435,6 @@ Proof.
   intros HI. unfold collect. destruct (collect_segs c st order o) as [st1 o1] eqn:Ec. intros H.
   destruct (collect_segs_inv _ _ _ _ _ _ HI Ec) as [HI1 Hl]. destruct (arenas_purge_st_inv _ _ _ _ _ HI1 H) as [HI2 Hl2].
   split; [exact HI2|congruence].
-Qed.
-
-(* ---------------------------------------------------------------- releasing a segment *)
-Lemma arena_free_split c a acc b0 n allc o :
-  arena_free c a acc b0 n allc o =
-  arena_free c (if allc then a else with_committed a (set_range (a_committed a) b0 n false)) acc b0 n true o.
-Proof. unfold arena_free. destruct allc; reflexivity. Qed.
-
-Lemma inv_release c st s unmap_ok o a' acc' o' :
-  commit_Inv st -> In s (st_segs st) -> seg_has_live (sg_base s) (st_live st) = false ->
-  segment_release c (st_arena st) (st_acc st) s unmap_ok o = (a', acc', o') ->
-  commit_Inv (mk a' (remove_seg (sg_base s) (st_segs st)) (st_live st) (st_raw st) acc').
-Proof.
-  intros HI Hs Hnl. unfold segment_release. pose proof (seg_wf_in st HI s Hs) as Hw.
-  pose proof (I_S st HI) as HS. rewrite Forall_forall in HS. destruct (HS s Hs) as [_ S2].
-  assert (Hothers : forall x, In x (remove_seg (sg_base s) (st_segs st)) -> In x (st_segs st) /\ sg_base x <> sg_base s)
-    by (intros x Hx; apply in_remove_seg in Hx; exact Hx).
-  destruct (sg_mem s) as [b0 nb|] eqn:Em.
-  - rewrite arena_free_split.
-    set (amid := if mask_is_full (sg_commit s) then st_arena st else with_committed (st_arena st) (set_range (a_committed (st_arena st)) b0 nb false)).
-    unfold seg_wf in Hw. rewrite Em in Hw. destruct Hw as [_ [_ [Hns [Hbase [Hr [Hcov Hiu]]]]]].
-    assert (Hshape : same_arena_shape (st_arena st) amid) by (subst amid; destruct (mask_is_full (sg_commit s)); unfold same_arena_shape; cbn; auto).
-    assert (Hinuse : a_inuse amid = a_inuse (st_arena st)) by (subst amid; destruct (mask_is_full (sg_commit s)); reflexivity).
-    assert (Hdec : forall b, a_committed amid b = true -> a_committed (st_arena st) b = true).
-    { subst amid. destruct (mask_is_full (sg_commit s)); [auto|]. cbn. intros b Hb.
-      destruct (set_range_cases (a_committed (st_arena st)) b0 nb false b) as [[_ E]|[_ E]]; rewrite E in Hb; [discriminate|exact Hb]. }
-    assert (HImid : commit_Inv (mk amid (remove_seg (sg_base s) (st_segs st)) (st_live st) (st_raw st) (st_acc st))).
-    { apply inv_remove_segment; auto. intros Hh b x Hb Hc Hin Hx. subst amid. destruct (mask_is_full (sg_commit s)) eqn:Efull.
-      - rewrite mask_is_full_spec in Efull. replace x with (sg_base s + (x - sg_base s)) by lia.
-        apply S2; [exact Hh|lia|]. apply Efull. rewrite <- (Hns Hh). lia.
-      - exfalso. cbn in Hc. rewrite set_range_in in Hc; [discriminate|].
-        assert (Hx' : block_slice (st_arena st) b0 <= x < block_slice (st_arena st) b0 + nb * BLOCK_SLICES) by (rewrite <- Hbase; lia).
-        destruct (slice_in_blocks _ _ _ _ Hx') as [b' [Hb' Hin']]. rewrite (block_of_slice_unique _ _ _ _ Hin Hin'). exact Hb'. }
-    intros H. eapply (inv_arena_free_unowned _ HImid); [|exact H].
-    intros ow How. rewrite owners_eq in How. cbn [st_arena st_segs st_raw mk] in How |- *.
-    replace (block_slice amid b0) with (sg_base s) by (rewrite Hbase; unfold block_slice; destruct Hshape as [-> _]; reflexivity).
-    change (sg_base s, nb * BLOCK_SLICES) with (sg_base s, match MemArena b0 nb with MemArena _ nb' => nb' * BLOCK_SLICES | MemOs => sg_nslices s end).
-    rewrite <- Em. fold (seg_span s). fold (seg_owner s).
-    apply in_app_or in How. destruct How as [How|How]; apply in_map_iff in How; destruct How as [y [<- Hy]].
-    + destruct (Hothers y Hy) as [Hy1 Hy2]. unfold owner_disjoint, seg_owner. cbn [fst snd]. apply range_disjoint_spec.
-      apply (segs_disjoint st HI s y Hs Hy1). congruence.
-    + unfold owner_disjoint, seg_owner, raw_owner. cbn [fst snd]. apply range_disjoint_spec.
-      replace (block_slice amid (fst y)) with (block_slice (st_arena st) (fst y)) by (unfold block_slice; destruct Hshape as [-> _]; reflexivity).
-      apply (seg_raw_disjoint st HI s y Hs Hy).
-  - intros H. inversion H; subst; clear H. unfold seg_wf in Hw. rewrite Em in Hw. destruct Hw as [_ [_ [_ Hout]]].
-    assert (HImid : commit_Inv (mk (st_arena st) (remove_seg (sg_base s) (st_segs st)) (st_live st) (st_raw st) (st_acc st))).
-    { apply inv_remove_segment; auto; [unfold same_arena_shape; auto|].
-      intros _ b x Hb _ Hin Hx. exfalso. apply range_disjoint_spec in Hout. pose proof (in_block_in_arena _ _ _ Hb Hin) as Ha. unfold in_arena in Ha. lia. }
-    destruct unmap_ok; [|exact HImid].
-    apply (inv_acc_outside _ (sg_base s) (sg_nslices s) false HImid); cbn [st_arena st_segs mk]; [exact Hout|].
-    intros y Hy. destruct (Hothers y Hy) as [Hy1 Hy2]. apply range_disjoint_spec.
-    pose proof (segs_disjoint st HI s y Hs Hy1 ltac:(congruence)) as Hd.
-    destruct (seg_span_ge _ _ (seg_wf_in st HI s Hs)), (seg_span_ge _ _ (seg_wf_in st HI y Hy1)).
-    unfold seg_span in Hd at 1. rewrite Em in Hd. lia.
 Qed.
 
 (* ---------------------------------------------------------------- _mi_segment_page_free *)
